@@ -4,6 +4,7 @@ import simcommon as sc
 
 PROP = 'C01'
 LEAN_MODULES = ['EpyVerif.Props.C01']
+DRIVER_MODULES = ['EpyVerif.Model.Sim', 'EpyVerif.Props.C07', 'EpyVerif.Lemmas.Tables']
 TRUSTED = sc.SIM_TRUSTED + [
     "translator harness/extract_tables.py: registration tables by running build() of every shipped model, handler bodies by an AST walk; "
     "its output is compiled on every run (wf_* / shipped_* obligations by decide, wf_sound proved)",
